@@ -2,6 +2,7 @@ package eng
 
 import (
 	"fmt"
+	"go/ast"
 	"go/token"
 	"go/types"
 	"sort"
@@ -91,9 +92,17 @@ func analyseBlocking(as AnalysisSpec, funcs []*FuncResult, work string, timeout 
 		details []string
 	}
 	memo := map[string]*verdict{}
-	var eval func(key string, stack []string, top bool) *verdict
-	eval = func(key string, stack []string, top bool) *verdict {
-		if v, ok := memo[key]; ok && !(top && underLock) {
+	lockClass := func(k string) string {
+		if i := strings.Index(k, "@"); i >= 0 {
+			return k[:i]
+		}
+		return k
+	}
+	var evalH func(key string, stack []string, top bool, inherited []string) *verdict
+	eval := func(key string, stack []string, top bool) *verdict { return evalH(key, stack, top, nil) }
+	evalH = func(key string, stack []string, top bool, inherited []string) *verdict {
+		mkey := key + "|" + strings.Join(inherited, ",")
+		if v, ok := memo[mkey]; ok && !(top && underLock) {
 			return v
 		}
 		for _, s := range stack {
@@ -124,7 +133,19 @@ func analyseBlocking(as AnalysisSpec, funcs []*FuncResult, work string, timeout 
 				if top && underLock && len(ev.Held) == 0 {
 					continue
 				}
+				// lock classes held at this event: the caller's plus this function's own
+				heldNow := append([]string{}, inherited...)
+				for _, h := range ev.Held {
+					heldNow = append(heldNow, lockClass(h))
+				}
+				sort.Strings(heldNow)
 				switch ev.Kind {
+				case "lock":
+					for _, h := range inherited {
+						if h == lockClass(ev.What) {
+							fail("acquires " + lockClass(ev.What) + " at " + ev.Pos + " while a caller already holds a lock of that class (self-deadlock)")
+						}
+					}
 				case "send":
 					if seen[site+"ok"] {
 						continue
@@ -148,11 +169,13 @@ func analyseBlocking(as AnalysisSpec, funcs []*FuncResult, work string, timeout 
 				case "sleep", "wait":
 					fail(desc + " at " + ev.Pos)
 				case "call":
-					if seen[site] {
+					if seen[site+strings.Join(heldNow, ",")] {
 						continue
 					}
-					seen[site] = true
+					seen[site+strings.Join(heldNow, ",")] = true
 					switch {
+					case ev.Extra["inlined"] != "":
+						// the callee's own events follow in this trace
 					case ev.Blocking || blockingExt[ev.What]:
 						fail("blocking external call " + ev.What + " at " + ev.Pos)
 					case strings.HasPrefix(ev.What, "func value"):
@@ -161,7 +184,7 @@ func analyseBlocking(as AnalysisSpec, funcs []*FuncResult, work string, timeout 
 							fail("call of a function value at " + ev.Pos)
 						}
 					case findFunc(funcs, ev.What) != nil:
-						cv := eval(ev.What, append(stack, key), false)
+						cv := evalH(ev.What, append(stack, key), false, heldNow)
 						v.ms += cv.ms
 						if !cv.ok {
 							fail("calls " + ev.What + " at " + ev.Pos + " which may block: " + cv.why)
@@ -173,7 +196,7 @@ func analyseBlocking(as AnalysisSpec, funcs []*FuncResult, work string, timeout 
 						for _, f := range funcs {
 							if strings.HasSuffix(f.Key, m) && f.Key != ev.What && strings.Count(f.Key, ".") == 2 {
 								found = true
-								cv := eval(f.Key, append(stack, key), false)
+								cv := evalH(f.Key, append(stack, key), false, heldNow)
 								v.ms += cv.ms
 								if !cv.ok {
 									fail("calls " + ev.What + " (implementation " + f.Key + ") at " + ev.Pos + " which may block: " + cv.why)
@@ -188,7 +211,7 @@ func analyseBlocking(as AnalysisSpec, funcs []*FuncResult, work string, timeout 
 			}
 		}
 		if !(top && underLock) {
-			memo[key] = v
+			memo[mkey] = v
 		}
 		return v
 	}
@@ -342,6 +365,11 @@ func analyseTypeInvEncapsulation(as AnalysisSpec, progs []*Program, cs *Contract
 					inside = true
 				}
 				o := &OblResult{Name: fk + "/typeinv-encapsulation:" + tk, Kind: "typeinv-encapsulation", Func: fk, Backend: "ssa-walker", Result: "discharged", Desc: "fields of " + tk + " are accessed only by its verified methods/constructors"}
+				if inside && !verified[fk] && privateHelperOf(p, fn, tk, cs) {
+					o.Desc += " (unexported helper without contract, called only by methods of the type: verified inlined in its callers)"
+					ar.Obls = append(ar.Obls, o)
+					continue
+				}
 				if !inside {
 					o.Result, o.Why = "failed", "function outside the type accesses its fields directly"
 				} else if !verified[fk] {
@@ -549,6 +577,10 @@ func analyseMethodSet(as AnalysisSpec, progs []*Program, cs *Contracts, funcs []
 			declKey := structKey(deref(recv)) + "." + fn.Name()
 			o := &OblResult{Name: tk + "/methodset:" + fn.Name(), Kind: "methodset", Func: tk, Backend: "ssa-walker", Result: "discharged", Desc: "method " + fn.Name() + " of *" + tk + " cannot bypass the object invariant"}
 			if structKey(deref(recv)) == tk {
+				if m := p.Funcs[declKey]; m != nil && !verified[declKey] && privateHelperOf(p, m, tk, cs) {
+					ar.Obls = append(ar.Obls, o)
+					continue
+				}
 				if !verified[declKey] {
 					o.Result, o.Why = "failed", "method declared on the type is not verified against the invariant"
 				}
@@ -638,6 +670,18 @@ func analyseAtomicGlobal(as AnalysisSpec, progs []*Program, cs *Contracts, funcs
 						if isCall {
 							if sc := call.Call.StaticCallee(); sc != nil && sc.Pkg != nil && sc.Pkg.Pkg.Path() == "sync/atomic" {
 								atomicCall = true
+								// only single-step read-modify-write operations keep the counter's history linear
+								if ops := as.Args["ops"]; ops != "" {
+									okOp := false
+									for _, op := range strings.Split(ops, ",") {
+										if strings.TrimSpace(op) == sc.Name() {
+											okOp = true
+										}
+									}
+									if !okOp {
+										o.Result, o.Why = "failed", "atomic operation "+sc.Name()+" at "+p.Pos(in.Pos())+" is not one of the allowed single-step operations ("+ops+")"
+									}
+								}
 							}
 						}
 						if !atomicCall {
@@ -805,4 +849,43 @@ func checkNoEscape(e *Engine) (bool, string) {
 		}
 	}
 	return true, ""
+}
+
+// privateHelperOf: fn is an unexported, non-recursive method of type tk without a contract whose every
+// caller in the module is a method of tk.
+func privateHelperOf(p *Program, fn *ssa.Function, tk string, cs *Contracts) bool {
+	if fn.Signature.Recv() == nil || ast.IsExported(fn.Name()) || p.Recursive(fn) {
+		return false
+	}
+	if cs.Funcs[p.FuncKey(fn)] != nil {
+		return false
+	}
+	callers := 0
+	for _, g := range p.All {
+		for _, b := range g.Blocks {
+			for _, in := range b.Instrs {
+				var c *ssa.CallCommon
+				switch x := in.(type) {
+				case *ssa.Call:
+					c = x.Common()
+				case *ssa.Go:
+					c = x.Common()
+				case *ssa.Defer:
+					c = x.Common()
+				}
+				if c == nil || c.StaticCallee() != fn {
+					continue
+				}
+				root := g
+				for root.Parent() != nil {
+					root = root.Parent()
+				}
+				if root.Signature.Recv() == nil || structKey(deref(root.Signature.Recv().Type())) != tk {
+					return false
+				}
+				callers++
+			}
+		}
+	}
+	return callers > 0
 }
